@@ -135,7 +135,7 @@ SOURCE_TIE = {
     "C04": ("C01_source", "jwt.DecodeGeneric's re-homing (Properties/C01_source.v, C01_source_decode_generic: in the version-1 layout, and only there, a data map is made if the payload had none and the top-level kind and tags are stored into it when there are any; nothing else of the unmarshalled payload is touched)"),
     "C02": (["C02_source", "C02_source_encode", "C02_source_prefixes"], "ExpectedPrefixes() of the seven kinds (a fresh list of constants, equal to the generated role table); the six typed decoders (each against the model's decode_typed), identifier.Kind; on the Encode side ClaimsData.doEncode's role rule and every kind's Encode (refusing whenever the model's encode_gate refuses)"),
     "C05": (["C05_source", "C05_source_encode", "C05_source_codec", "C01_source"], "jwt.DecodeGeneric (three segments, valid header, no other gate: Properties/C01_source.v); decodeString / encodeToString / serialize of both packages (the unpadded base64url codec and json.Marshal, nothing around them) and the updateVersion of the six typed kinds; Header.Valid, parseHeaders, loadClaims; on the Encode side ClaimsData.doEncode (version-2 algorithm only, three segments, signature over header-dot-claims)"),
-    "C06": (["C06_source", "C06_source_imports", "C06_source_exports", "C06_source_limits", "C06_source_account", "C07_source_results"], "AccountClaims.Validate and Account.Validate themselves (the whole walk: imports, exports, limits, default permissions, mappings, external authorization, trace, the import / export / wildcard limits, signing keys with UserScope.Validate, Info.Validate with url.Parse as an oracle, OperatorLimits.IsEmpty; the one store Validate makes - a trace sampling of zero becomes 100 - returned as an effect log) against the model's v_account_claims; OperatorClaims.Validate and Operator.Validate with validateAccountServerURL, ValidateOperatorServiceURL, validateOperatorServiceURLs and ParseServerVersion against v_operator_claims; Subject.countTokenWildcards, Subject.Validate, ServiceLatency.Validate, Export.Validate (with the Export kind / response-type predicates); Imports.Validate (the walk over the import list with its set of delivery subjects, every pair compared both ways) against the model's v_imports; Exports.Validate with its overlap scan isContainedIn (one blocking issue per distinct containing subject) against the model's v_exports / v_overlaps; OperatorLimits.Validate (tiers versus flat JetStream limits, blank tier names) against v_op_limits; and the validation results themselves (Properties/C07_source_results.v)"),
+    "C06": (["C06_source", "C06_source_imports", "C06_source_exports", "C06_source_limits", "C06_source_account", "C07_source_results"], "RenamingSubject.Validate (an import's local subject against the subject it renames: the model's v_renaming, whole tokens counted); AccountClaims.Validate and Account.Validate themselves (the whole walk: imports, exports, limits, default permissions, mappings, external authorization, trace, the import / export / wildcard limits, signing keys with UserScope.Validate, Info.Validate with url.Parse as an oracle, OperatorLimits.IsEmpty; the one store Validate makes - a trace sampling of zero becomes 100 - returned as an effect log) against the model's v_account_claims; OperatorClaims.Validate and Operator.Validate with validateAccountServerURL, ValidateOperatorServiceURL, validateOperatorServiceURLs and ParseServerVersion against v_operator_claims; Subject.countTokenWildcards, Subject.Validate, ServiceLatency.Validate, Export.Validate (with the Export kind / response-type predicates); Imports.Validate (the walk over the import list with its set of delivery subjects, every pair compared both ways) against the model's v_imports; Exports.Validate with its overlap scan isContainedIn (one blocking issue per distinct containing subject) against the model's v_exports / v_overlaps; OperatorLimits.Validate (tiers versus flat JetStream limits, blank tier names) against v_op_limits; and the validation results themselves (Properties/C07_source_results.v)"),
     "C07": (["C07_source", "C06_source_account", "C07_source_results"], "AccountClaims.Validate / Account.Validate and OperatorClaims.Validate / Operator.Validate (append exactly the model's v_account_claims / v_operator_claims, whose time-check issues C07_time_account / C07_time_operator count: the time issues of an account are those of its own standard fields, an embedded activation token adds none, and nothing is skipped when the claims are expired); the validation results themselves - CreateValidationResults, Add, AddError, AddWarning, AddTimeCheck, IsBlocking, IsEmpty, Errors, Warnings of both packages (a results object is its list of issues: nothing dropped, capped, replaced or shared) - and ClaimsData.Validate (v2 and v1compat), the time checks every kind delegates to"),
     "C08": ("C08_source", "OperatorClaims.DidSign and AccountClaims.DidSign; SigningKeys.Contains / Keys / GetScope (membership among the keys of the set whatever is filed under them), and with it the account's DidSign asked through the translated Contains"),
     "C09": ("C09_source", "RevocationList.Revoke / ClearRevocation / IsRevoked / allRevoked / MaybeCompact (v2 and v1compat), AccountClaims.IsClaimRevoked / isRevoked, Export.IsClaimRevoked / isRevoked, and the wrappers that store - AccountClaims / Export RevokeAt, Revoke, ClearRevocation (the revocation map a data field of the receiver carried as a variable: RevokeAt makes the map if it is nil and revokes at exactly the time handed in, Revoke at what time.Now() reads)"),
@@ -143,7 +143,7 @@ SOURCE_TIE = {
     "C12": (["C12_source", "C13_source"], "ClaimsData.hash (the id is a function of the marshalled claims data alone, Properties/C13_source.v); ClaimsData.doEncode (what a successful Encode did, in order, with an effect log; completeness; the empty token on failure), ClaimsData.encode and the Encode of all seven kinds, each proved to return what the model's encode returns under the full gate, with the same claims object afterwards"),
     "C10": (["C10_source", "C10_source_import"], "Subject.IsContainedIn / HasWildCards (v2 and v1compat); Import.Validate with Import.IsService / IsStream / GetTo and ActivationClaims.validateWithTimeChecks (appends exactly the model's v_import, whose token part v_import_token the C10 theorems are about)"),
     "C14": ("C14_source", "IssueUserJWT (the two role tests first and in order, nothing asked of the signer, the claims handed to Encode built by exactly these stores in this order - scoped, expiry only for a non-zero duration, issuer account, name or else the user key, subject, tags - whatever the stores and Encode are); UserScope.ValidateScopedSigner and UserClaims.HasEmptyPermissions (a scope accepts a claim exactly when the model's validate_scoped_signer does; reflect.DeepEqual an unknown function, instantiated by has_empty_permissions)"),
-    "C16": ("C16_source", "Subject.IsContainedIn / HasWildCards and Exports.HasExportContainingSubject (v2 and v1compat; the query is true exactly when some non-nil entry's subject contains the one asked for)"),
+    "C16": ("C16_source", "Subject.IsContainedIn / HasWildCards and Exports.HasExportContainingSubject (v2 and v1compat; the query is true exactly when some non-nil entry's subject contains the one asked for); RenamingSubject.ToSubject (a token reads as * exactly when it is a dollar sign followed by an integer)"),
     "C18": ("C18_source", "ActivationClaims.HashID itself and cleanSubject (v2 and v1compat; the hash object an opaque value - sha256.New, Write and Sum unknown functions - so HashID is the model's hash_id for every hash function: refused when a part is missing, else base32 of the digest of exactly issuer.subject.cleaned)"),
     "C19": ("C19_source", "the v1compat Decode(token, target) with parseHeaders and parseClaims (accepts exactly what the model's v1_decode accepts, for every target kind) and the v1compat DecodeGeneric (that Decode into generic claims of its own and nothing before or after it)"),
     "C20": ("C20_source", "TagList / StringList Contains, Add, Remove; CIDRList Contains, Add, Remove (the tag list's, through a pointer conversion) and Set (the model's cidr_set: the list emptied, the lower-cased text split on commas added)"),
